@@ -18,9 +18,12 @@ from props.c04 import TRUST
 
 
 def run(ses):
+    from pyvc import frame as _frame
+
+    _frame.purity_obligation(ses)
     missing(ses)
     for unit in ("volume", "leader"):
-        records.check_unit(ses, unit, ["truncation"], truncation=True)
+        records.check_unit(ses, unit, ["truncation", "frame"], truncation=True)
     termination(ses)
     bounded_image_truncation(ses)
     ses.trust(*TRUST[:3], "fsspec: open() of a missing file raises FileNotFoundError; read(k) returns min(k, remaining) bytes (T7)",
